@@ -3,11 +3,16 @@ package bed
 
 import (
 	"fmt"
+	"net"
+	"net/http"
+	"strings"
 	"sync"
 	"time"
 
 	erpc "github.com/henrylee2cn/erpc/v6"
 	"github.com/henrylee2cn/erpc/v6/codec"
+	"github.com/henrylee2cn/erpc/v6/mixer/websocket"
+	ws "github.com/henrylee2cn/erpc/v6/mixer/websocket/websocket"
 
 	"verifharness/memconn"
 )
@@ -65,4 +70,70 @@ func WaitUntil(d time.Duration, cond func() bool) bool {
 		time.Sleep(200 * time.Microsecond)
 	}
 	return true
+}
+
+// oneShotListener hands out a single in-memory connection to an http.Server.
+type oneShotListener struct {
+	c    chan net.Conn
+	done chan struct{}
+	once sync.Once
+	addr net.Addr
+}
+
+func (l *oneShotListener) Accept() (net.Conn, error) {
+	select {
+	case c := <-l.c:
+		return c, nil
+	case <-l.done:
+		return nil, fmt.Errorf("listener closed")
+	}
+}
+func (l *oneShotListener) Close() error   { l.once.Do(func() { close(l.done) }); return nil }
+func (l *oneShotListener) Addr() net.Addr { return l.addr }
+
+// ConnectWS joins peers a (client) and b (server) through a real websocket handshake and
+// framing over an in-memory connection: b serves through mixer/websocket's http handler,
+// a upgrades its end with the websocket client and serves it with the websocket protocol
+// wrapper around the given sub-protocol.
+func ConnectWS(a, b erpc.Peer, sub erpc.ProtoFunc, prep func(ca, cb *memconn.Conn)) (*Link, error) {
+	ca, cb := memconn.NewPair()
+	if prep != nil {
+		prep(ca, cb)
+	}
+	l := &Link{CA: ca, CB: cb}
+	lis := &oneShotListener{c: make(chan net.Conn, 1), done: make(chan struct{}), addr: cb.LocalAddr()}
+	lis.c <- cb
+	srv := &http.Server{Handler: websocket.NewServeHandler(b, nil, sub)}
+	go srv.Serve(lis)
+	cfg, err := ws.NewConfig("ws://"+cb.LocalAddr().String()+"/", "ws://"+ca.LocalAddr().String()+"/")
+	if err != nil {
+		return nil, err
+	}
+	wc, err := ws.NewClient(cfg, ca)
+	if err != nil {
+		lis.Close()
+		return nil, fmt.Errorf("websocket handshake: %v", err)
+	}
+	var sa *erpc.Status
+	l.A, sa = a.ServeConn(wc, websocket.NewWsProtoFunc(sub))
+	if !sa.OK() {
+		lis.Close()
+		return nil, fmt.Errorf("client ServeConn: %v", sa)
+	}
+	want := ca.LocalAddr().String()
+	ok := WaitUntil(10*time.Second, func() bool {
+		b.RangeSession(func(s erpc.Session) bool {
+			if strings.Contains(s.RemoteAddr().String(), want) {
+				l.B = s
+				return false
+			}
+			return true
+		})
+		return l.B != nil
+	})
+	lis.Close()
+	if !ok {
+		return nil, fmt.Errorf("server side websocket session did not appear")
+	}
+	return l, nil
 }
